@@ -1,7 +1,7 @@
 (* Entry points evaluated by the generated Run/Cases_*.v files. *)
 From Coq Require Import ZArith QArith Qcanon List Bool.
 From Coq Require PrimFloat.
-From RV Require Import Base.Num Base.Vec Expr Rows Ocp Mech.Grid Mech.Intg Mech.Sampling Mech.Shooting Inst.
+From RV Require Import Base.Num Base.Vec Expr Rows Ocp Mech.Grid Mech.Intg Mech.Sampling Mech.Shooting Mech.Colloc Inst.
 Import ListNotations.
 
 Section Conv.
@@ -33,9 +33,30 @@ Definition run_shooting (oc : ocp) (pq : point Q) :=
    (* time read-back: control grid, integrator grid, DT and DT_control at the nodes *)
    (L_cg L, concat (L_ig L), map (fun k => e_DT (env_control L k)) nodes,
     map (fun k => e_DTc (env_control L k)) nodes)).
+
+(* NLP of a DirectCollocation transcription at a point *)
+Definition run_dc (oc : ocp) (pq : point Q) :=
+  let pt := point_of_Q pq in
+  let L := dc_lists oc pt in
+  let N := m_N (o_method oc) in
+  let nodes := map Z.of_nat (seq 0 N) ++ [(-1)%Z] in
+  (objective L (o_objective oc), map out_row (rows_dc oc pt), L_X L, true,
+   (L_cg L, concat (L_ig L), map (fun k => e_DT (env_control L k)) nodes,
+    map (fun k => e_DTc (env_control L k)) nodes)).
+
+Definition run_any (oc : ocp) (pq : point Q) :=
+  match m_kind (o_method oc) with
+  | DC => run_dc oc pq
+  | _ => run_shooting oc pq
+  end.
+
+(* collocation coefficients computed from the collocation points *)
+Definition run_coeffs (tauq : list Q) :=
+  let tau := map of_Q tauq in (coeff_C tau, coeff_D tau, coeff_B tau).
 End Conv.
 
-Definition run_shooting_float := @run_shooting _ FloatOps.
+Definition run_shooting_float := @run_any _ FloatOps.
+Definition run_coeffs_float := @run_coeffs _ FloatOps.
 Definition qc_out (q : Qc) : Z * positive := (Qnum (this q), Qden (this q)).
 
 Definition q (n : Z) (d : positive) : Q := Qmake n d.
